@@ -30,6 +30,9 @@ def check(run):
         c["sched"] = []
         # parametrized tests share the rank of the function they come from (suite/loader.py: _load_parametrized_tests)
         tie_parametrized(run.rng, c["project"])
+        # sibling suites sharing a rank (two directories without a module: both rank 0; an explicit rank= given twice)
+        if run.rng.random() < 0.25 and tie_suites(run.rng, c["project"]):
+            run.count("projects_with_sibling_suites_sharing_a_rank")
         cases.append(c)
         for k in range(3 if run.tier == "quick" else 8):
             c2 = copy.deepcopy(c)
@@ -38,6 +41,13 @@ def check(run):
             c2["sched"] = projgen.gen_sched(run.rng, kind=run.rng.choice(["random", "last", "bursts", "random"]))
             ref_of[c2["id"]] = c["id"]
             cases.append(c2)
+    # the writer half on live streams (harness/tworuns.py): the 1-thread run and the first N-thread run of some projects
+    # also record the events as Model/Events.v sees them
+    n_live = 12 if run.tier == "quick" else 200
+    live = [c["id"] for c in base[:n_live]]
+    for c in cases:
+        if c["id"] in live or (c["id"].endswith("_n0") and ref_of.get(c["id"]) in live):
+            c["record_plain"] = True
     results = {}
 
     def oracle(c, r):
@@ -52,9 +62,26 @@ def check(run):
         d = runoracle.first_difference(runoracle.strip_attachment_prefix(a["report"]), runoracle.strip_attachment_prefix(b["report"]))
         if d:
             case = next(c for c in cases if c["id"] == cid)
-            sig = "report-differs:order-of-tests-sharing-a-rank" if ": ORDER " in d else "report-differs"
+            sig = classify_difference(case["project"], a["report"], b["report"], d)
             run.violation(sig, "the report with %d threads differs from the report with one thread: %s" % (case["options"]["nb_threads"], d[:300]),
                           {"case": case, "reference_case": next(c for c in cases if c["id"] == ref), "difference": d})
+    two_runs_on_live_streams(run, live, results, cases)
+    # the recorded finding F24 (sibling suites sharing a rank are listed in arrival order), replayed on the real runner: two
+    # top-level suites of rank 0 (two directories without a module), two workers, the second suite's start event first
+    wit = {"id": "f24_n", "project": F24_WITNESS, "sched": [2, 4, 1, 5, 6, 3], "options": {"nb_threads": 2, "stop_on_failure": False,
+                                                                                          "force_disabled": False}}
+    wref = dict(wit, id="f24_1", sched=[], options=dict(wit["options"], nb_threads=1))
+    wres = sim.run_cases([wref, wit])
+    a, b = wres.get("f24_1") or {}, wres.get("f24_n") or {}
+    run.evaluations += 1
+    if a.get("report") and b.get("report"):
+        d = runoracle.first_difference(runoracle.strip_attachment_prefix(a["report"]), runoracle.strip_attachment_prefix(b["report"]))
+        if d:
+            run.violation(classify_difference(F24_WITNESS, a["report"], b["report"], d),
+                          "the report with 2 threads differs from the report with one thread: %s" % d[:300],
+                          {"case": wit, "reference_case": wref, "difference": d})
+        else:
+            run.count("f24_witness_no_longer_differs")
     # free runs on the real ThreadPool (no deterministic scheduler), compared with the sequential run as well
     free = []
     for c in base[: (10 if run.tier == "quick" else 150)]:
@@ -74,13 +101,119 @@ def check(run):
         if a.get("report") and b.get("report") and (b.get("outcome") or ["?"])[0] == "returned":
             d = runoracle.first_difference(runoracle.strip_attachment_prefix(a["report"]), runoracle.strip_attachment_prefix(b["report"]))
             if d:
-                run.violation("report-differs:order-of-tests-sharing-a-rank" if ": ORDER " in d else "report-differs:free-run", "a free %d-thread run differs from the sequential run: %s" % (c2["options"]["nb_threads"], d[:300]),
+                run.violation(classify_difference(c2["project"], a["report"], b["report"], d, "report-differs:free-run"), "a free %d-thread run differs from the sequential run: %s" % (c2["options"]["nb_threads"], d[:300]),
                               {"case": c2, "difference": d})
     run.coverage["rule"] = ("each generated project (schedule-independent features only; parametrized tests share a rank as the loader "
                             "makes them) is run once with 1 thread and 3 (thorough: 8) times with 2..4 (..8) threads under adversarial "
                             "deterministic schedules, plus free runs on the real ThreadPool with seeded delays; the normal forms of the "
                             "reports (timestamps dropped, attachment uniquifier stripped) must be equal; non-trivial = an N-thread run of a "
                             "project with more than 4 tasks")
+
+
+def two_runs_on_live_streams(run, live, results, cases):
+    """Premises of Props/C05.C05_two_runs_same_report evaluated inside Coq on recorded pairs of runs (see harness/tworuns.py)."""
+    import lib
+    import tworuns
+    from props import c18
+    pairs, ids = [], []
+    for ref in live:
+        a, b = results.get(ref) or {}, results.get(ref + "_n0") or {}
+        if (a.get("outcome") or ["?"])[0] != "returned" or (b.get("outcome") or ["?"])[0] != "returned":
+            continue
+        case = next(c for c in cases if c["id"] == ref + "_n0")
+        if has_suite_rank_ties(case["project"]):
+            run.count("live_stream_pairs_left_out_sibling_suites_share_a_rank")      # outside keys_distinct (finding F24)
+            continue
+        try:
+            p = tworuns.build_pair(a, b)
+        except tworuns.Unusable as e:
+            run.tie_broken("live streams of a 1-thread and an N-thread run can be paired", case={"id": ref}, detail=str(e))
+            continue
+        run.evaluations += 1
+        run.count("live_stream_pairs")
+        if "differs" in p:
+            run.violation("task-events-differ", "a task does not fire the same events with %d threads as with one: %s" % (
+                case["options"]["nb_threads"], p["differs"]),
+                {"case": case, "reference_case": next(c for c in cases if c["id"] == ref), "difference": p["differs"]})
+            continue
+        run.count("live_stream_events", p["n_events"])
+        if p["n_threads_seen"] >= 2:
+            run.count("live_stream_pairs_with_several_worker_threads")
+            run.nontrivial.add("live:" + ref)
+        pairs.append(p)
+        ids.append(ref)
+    if not getattr(run, "model_ok", False) or not pairs:
+        return
+    shards = [(pairs[i:i + 4], ids[i:i + 4]) for i in range(0, len(pairs), 4)]
+    outs = run.coq_eval_many([("tworuns%d" % k, tworuns.case_file(ps)) for k, (ps, _) in enumerate(shards)])
+    for (ps, idl), (rc, out) in zip(shards, outs):
+        verdicts = c18.parse_nat_lists(out) if rc == 0 else None
+        if not verdicts or len(verdicts) != len(ps):
+            run.tie_broken("two-runs case file did not evaluate", detail=out[-1500:])
+            continue
+        for ref, bad in zip(idl, verdicts):
+            for code in bad[:3]:
+                case = next(c for c in cases if c["id"] == ref + "_n0")
+                run.tie_broken(tworuns.explain(code), case={"id": ref, "project": case["project"], "options": case["options"],
+                                                            "sched": case["sched"][:60]})
+            if not bad:
+                run.count("live_stream_pairs_meeting_every_premise")
+
+
+_NOHOOKS = {"setup_suite": None, "teardown_suite": None, "setup_test": None, "teardown_test": None}
+F24_WITNESS = {"fixtures": [], "suites": [
+    {"name": "s5", "disabled": False, "rank": 0, "hooks": _NOHOOKS, "injected": [], "subs": [],
+     "tests": [{"name": "t6", "disabled": False, "rank": 0, "deps": [], "args": [], "params": {}, "body": [["log", 1, 1]]}]},
+    {"name": "s7", "disabled": False, "rank": 0, "hooks": _NOHOOKS, "injected": [], "subs": [],
+     "tests": [{"name": "t8", "disabled": False, "rank": 0, "deps": [], "args": [], "params": {}, "body": [["log", 1, 1]]}]}]}
+
+
+def tie_suites(rng, pd):
+    """Give some sibling suites the rank of their predecessor (declaration order unchanged). Returns the number of ties made."""
+    made = 0
+    lists = [pd["suites"]] + [s["subs"] for _, s, _ in runoracle.walk_suites(pd)]
+    for lst in lists:
+        for j in range(1, len(lst)):
+            if rng.random() < 0.5:
+                lst[j]["rank"] = lst[j - 1]["rank"]
+                made += 1
+    return made
+
+
+def _rank_ties_only(pd_suites, ra, rb):
+    """ra, rb: the lists of suite normal forms under one parent in the two reports; pd_suites: the declared siblings.
+    True iff both lists hold the same suites with non-decreasing ranks (so they can only differ by the order WITHIN groups of
+    equal rank) and the same holds recursively; the lists are re-ordered in place into declaration order within each group."""
+    rank = {s["name"]: s["rank"] for s in pd_suites}
+    pos = {s["name"]: i for i, s in enumerate(pd_suites)}
+    for lst in (ra, rb):
+        names = [x["name"] for x in lst]
+        if sorted(names) != sorted(n for n in rank if n in names) or len(set(names)) != len(names):
+            return False
+        ranks = [rank[n] for n in names]
+        if ranks != sorted(ranks):
+            return False
+        lst.sort(key=lambda x: (rank[x["name"]], pos[x["name"]]))
+    by_name = {s["name"]: s for s in pd_suites}
+    return all(_rank_ties_only(by_name[x["name"]]["subs"], x["suites"], y["suites"]) for x, y in zip(ra, rb))
+
+
+def classify_difference(pd, rep_a, rep_b, d, default="report-differs"):
+    """Signature of a difference between two report normal forms of one project."""
+    if ": ORDER " not in d:
+        return default
+    a, b = copy.deepcopy(runoracle.strip_attachment_prefix(rep_a)), copy.deepcopy(runoracle.strip_attachment_prefix(rep_b))
+    if d.split(": ORDER")[0].rsplit(".", 1)[-1].startswith("suites"):
+        # suites listed in another order: only among siblings that share a rank (the recorded finding F24), or worse?
+        if _rank_ties_only(pd["suites"], a["suites"], b["suites"]) and not runoracle.first_difference(a, b):
+            return "report-differs:order-of-suites-sharing-a-rank"
+        return "report-differs:order-of-suites"
+    return "report-differs:order-of-tests-sharing-a-rank"
+
+
+def has_suite_rank_ties(pd):
+    lists = [pd["suites"]] + [s["subs"] for _, s, _ in runoracle.walk_suites(pd)]
+    return any(len(set(x["rank"] for x in lst)) < len(lst) for lst in lists)
 
 
 def tie_parametrized(rng, pd):
